@@ -103,6 +103,11 @@ class C03(Check):
                     Entry(b"plain", b"z", comment=bytes([hb]))]
             data, man = genzip.build(ents, comment=bytes([hb]))
             add_archive(data, man, "genzip-cp437-edge")
+        # every CP437 high byte once, in names and in entry comments (names of 16 bytes each; unflagged entries)
+        hi = bytes(range(0x80, 0x100))
+        ents = [Entry(b"n-" + hi[i:i + 16], b"c%d" % i, comment=hi[i:i + 16]) for i in range(0, 128, 16)]
+        data, man = genzip.build(ents, comment=hi[:40])
+        add_archive(data, man, "genzip-cp437-all")
         # local name length + local extra length beyond 65535 in sum (each fits its own field): the reader adds the two
         # (implementation only: 64 KiB extra fields cost the list-based model seconds per walk)
         for nl, xl in ((16, 65520), (40000, 30000), (65535, 65535)):
